@@ -65,7 +65,7 @@ func c10Gen(c *vfCtx, emit func(c10Case)) {
 	}
 	rec(0, nil)
 	for si, sub := range subsets {
-		if !c.thorough() && (len(sub) == 4 && si%16 != 0 || len(sub) == 3 && si%2 != 0) {
+		if !c.thorough() && (len(sub) == 4 && si%32 != 0 || len(sub) == 3 && si%3 != 0) {
 			continue
 		}
 		if c.thorough() && (len(sub) == 5 && si%120 != 0 || len(sub) == 4 && si%6 != 0) {
